@@ -194,6 +194,92 @@ def _pdf(objs: dict, trailer: str) -> bytes:
     return bytes(out)
 
 
+# ------------------------------------------------------------------------------------ minimal Word 97 file
+def _ole_single_stream(stream_name: str, stream: bytes) -> bytes:
+    """Compound file (version 3, 512-byte sectors) holding ONE stream of at least 4096 bytes."""
+    SECT, FREE, END, FATSECT = 512, 0xFFFFFFFF, 0xFFFFFFFE, 0xFFFFFFFD
+    if len(stream) < 4096:
+        stream = stream.ljust(4096, b"\x00")
+    n_stream = -(-len(stream) // SECT)
+    n_fat = 1
+    while n_fat * 128 < n_fat + 1 + n_stream:
+        n_fat += 1
+    if n_fat > 109:
+        raise ValueError("stream too large for a header-only DIFAT")
+    first = n_fat + 1
+    fat = [FATSECT] * n_fat + [END] + [first + i + 1 for i in range(n_stream - 1)] + [END]
+    fat += [FREE] * (n_fat * 128 - len(fat))
+
+    def entry(name, typ, child, start, size):
+        raw = (name.encode("utf-16-le") + b"\x00\x00") if name else b""
+        e = raw.ljust(64, b"\x00") + struct.pack("<H", len(raw)) + struct.pack("<BB", typ, 1)
+        e += struct.pack("<III", FREE, FREE, child) + bytes(16) + struct.pack("<I", 0) + bytes(16)
+        return e + struct.pack("<IQ", start, size)
+    directory = (entry("Root Entry", 5, 1, END, 0) + entry(stream_name, 2, FREE, first, len(stream))
+                 + entry("", 0, FREE, 0, 0) * 2)
+    header = b"\xd0\xcf\x11\xe0\xa1\xb1\x1a\xe1" + bytes(16) + struct.pack("<HHHHH", 0x3E, 3, 0xFFFE, 9, 6) + bytes(6)
+    header += struct.pack("<IIIIIIIII", 0, n_fat, n_fat, 0, 4096, END, 0, END, 0)
+    header += struct.pack("<109I", *(list(range(n_fat)) + [FREE] * (109 - n_fat)))
+    return header + struct.pack("<%dI" % len(fat), *fat) + directory + stream.ljust(n_stream * SECT, b"\x00")
+
+
+def _word_stream(payload: bytes) -> bytes:
+    text = b"Quarterly report. " * 60
+    fib = bytearray(0x200)
+    struct.pack_into("<H", fib, 0, 0xA5EC)             # wIdent
+    struct.pack_into("<H", fib, 2, 0x00C1)             # nFib (Word 97)
+    struct.pack_into("<I", fib, 0x4C, len(text))       # ccpText
+    body = bytes(fib) + text
+    return body.ljust(0x1000, b"\x00") + payload
+
+
+DIB_TAIL = 128 * 1024
+
+
+def _gradient(n: int) -> bytes:
+    return bytes((i * 7 + (i >> 8)) & 0xFF for i in range(n))
+
+
+def _dib_headers(n: int, shape: str) -> bytes:
+    """n BITMAPINFOHEADERs (40 bytes, 200 x 200 x 24 bit) back to back, then DIB_TAIL bytes of pixel data.
+    nested   every header declares (biSizeImage) pixel data up to the END of the stream: the first covers all
+    chain    header k declares pixel data up to the start of header k + 2
+    overrun  every header declares more than the stream holds
+    disjoint n separate tiny bitmaps (8 x 1 x 24 bit, 24 bytes of pixel data each), then the tail"""
+    out = bytearray()
+    if shape == "disjoint":
+        for j in range(n):
+            out += struct.pack("<IiiHHIIiiII", 40, 8, 1, 1, 24, 0, 24, 2835, 2835, 0, j) + bytes((j + k) & 0xFF for k in range(24))
+        return bytes(out) + _gradient(DIB_TAIL)
+    total = 40 * n + DIB_TAIL
+    for j in range(n):
+        pos = 40 * j
+        size = {"nested": total - pos - 40, "chain": 40 if j + 2 < n else total - pos - 40,
+                "overrun": total + 4096}[shape]
+        out += struct.pack("<IiiHHIIiiII", 40, 200, 200, 1, 24, 0, size, 2835, 2835, 0, j)
+    return bytes(out) + _gradient(DIB_TAIL)
+
+
+def _png_signatures(n: int, shape: str) -> bytes:
+    """n PNG signatures inside a WordDocument stream.
+    nested   every signature is followed by one chunk that spans everything up to a single shared IEND chunk
+    bare     signatures back to back, no chunk structure, then the tail
+    disjoint n complete minimal PNG files back to back"""
+    sig = b"\x89PNG\r\n\x1a\n"
+    if shape == "bare":
+        return sig * n + _gradient(DIB_TAIL)
+    if shape == "disjoint":
+        from .writers import images as IM
+        return b"".join(IM.png(2, 2, j) for j in range(n)) + _gradient(DIB_TAIL)
+    tail = _gradient(DIB_TAIL)
+    p_iend = 16 * n + len(tail) + 4                  # position of the shared IEND chunk (after a 4-byte crc slot)
+    out = bytearray()
+    for j in range(n):
+        chunk_start = 16 * j + 16
+        out += sig + struct.pack(">I", p_iend - 4 - chunk_start) + b"juNK"
+    return bytes(out) + tail + bytes(4) + struct.pack(">I", 0) + b"IEND" + struct.pack(">I", 0xAE426082)
+
+
 # ------------------------------------------------------------------------------------ hostile image headers
 IMG_TRICKS = ("zero", "tiny", "huge", "many")
 
@@ -409,6 +495,52 @@ def build(construct: str, mag: int, pos: str, rng) -> dict:
                     left -= k
         data = buf.getvalue()
         return {"ext": "zip", "data": data, "usize": len(data) + (mag if pos == "admitted" else 0), "note": note}
+    # ---- many / nested bitmap headers and PNG signatures inside a Word binary stream.  mag = number of headers
+    if c in ("doc_dib_headers", "doc_png_signatures"):
+        payload = _dib_headers(mag, pos) if c == "doc_dib_headers" else _png_signatures(mag, pos)
+        data = _ole_single_stream("WordDocument", _word_stream(payload))
+        return {"ext": "doc", "data": data, "usize": len(data), "note": note}
+    # ---- ODS cells / rows that are TYPED but empty, repeated.  pos = "<variant>.<first|last>"
+    if c in ("ods_cell_repeat_typed_empty", "ods_row_repeat_typed_empty"):
+        variant, where = pos.split(".")
+        typed = {"string_p": '<table:table-cell{rep} office:value-type="string"><text:p/></table:table-cell>',
+                 "string_nop": '<table:table-cell{rep} office:value-type="string"/>',
+                 "string_attr": '<table:table-cell{rep} office:value-type="string" office:string-value=""><text:p></text:p></table:table-cell>',
+                 "string_span": '<table:table-cell{rep} office:value-type="string"><text:p><text:span/></text:p></table:table-cell>',
+                 }[variant]
+        if c == "ods_cell_repeat_typed_empty":
+            marker_cell = ["str", "TYPEDEMPTY"]
+            others = [["str", "a"], ["str", "b"], ["str", "c"]]
+            row = [marker_cell] + others if where == "first" else others + [marker_cell]
+            pkg = _ods([row, others])
+            cell_xml = typed.format(rep=f' table:number-columns-repeated="{mag}"')
+        else:
+            rep = {"repeat": mag, "cells": [["str", "TYPEDEMPTY"], ["str", "TYPEDEMPTY"]]}
+            others = [[["str", "x"], ["str", "y"]]] * 2
+            pkg = _ods([rep] + others if where == "first" else others + [rep])
+            cell_xml = typed.format(rep="")
+        xml = zip_get(pkg, "content.xml").decode()
+        old = '<table:table-cell office:value-type="string"><text:p>TYPEDEMPTY</text:p></table:table-cell>'
+        if old not in xml:
+            raise ValueError("ODS writer changed: marker cell not found")
+        data = zip_replace(pkg, "content.xml", xml.replace(old, cell_xml).encode())
+        return {"ext": "ods", "data": data, "usize": zip_usize(data), "note": note}
+    # ---- mailbox with ONE very long "From " line.  mag = length of the line; pos = "<shape>.<nl|eof>.<first|last|only>"
+    if c == "mbox_longline":
+        shape, term, place = pos.split(".")
+        msg = (b"From a@b Mon Jan  1 00:00:00 2024\nSubject: s\nDate: Mon, 1 Jan 2024 00:00:00 +0000\nFrom: a@b\n\nx\n\n")
+        line = {"years": b"From a@b " + b"2024 " * (mag // 5), "digits": b"From " + b"1" * mag,
+                "spaces": b"From a@b" + b" " * mag, "letters": b"From a@b " + b"x" * mag,
+                "nonspace": b"From " + b"x" * mag, "yearsnosp": b"From a@b " + b"2024x" * (mag // 5),
+                "froms": b"From " * (mag // 5)}[shape]
+        line += b"\n" if term == "nl" else b""
+        if place == "last":
+            data = msg + line
+        elif place == "first":
+            data = line + (msg if term == "nl" else b"")
+        else:
+            data = line
+        return {"ext": "mbox", "data": data, "usize": len(data), "note": note}
     # ---- hostile image headers inside documents.  pos = "<kind>_<trick>@<host>"
     if c == "image_header":
         kt, host = pos.split("@")
